@@ -25,7 +25,7 @@ CHECKS = {
     "C14": (CO + " (type-state probes)", "4 C14", "Probe programs: builder presence exactly when the rule oracle expects it (overlapping fields, overlapping elements, self-overlapping lists, gaps with/without default), full chain compiles, every proper prefix / one-step-removed / transposed chain and steps for non-writable fields fail with E0599."),
     "C15": ("CTFE-vs-runtime differential monitor with the reference register as third party", "4 C15", "A generated const fn probe per case calls every const operation; const items force rustc's const evaluator, the same probe runs at run time, both are compared with the reference register; any error inside the probe or the const items (E0015 non-const call, E0080 evaluation failed, ...) is a violation naming the operation."),
     "C16": ("multi-profile differential monitor with panic recorder", "4 C16", "The complete workloads of all run-time monitors are executed under dbg (overflow checks, debug assertions, opt 0) and rel (none, opt 3) (thorough: also the crossed profiles); any panic for an in-range operation is a violation and per-case observation digests must be identical across profiles."),
-    "C17": (CO + " (method-presence probes)", "4 C17", "One probe per (field, method): getter / with_ / set_ compile exactly when the access specifier grants them and fail with E0599 otherwise, for every field kind x {r, w, rw, none}; the run-time part (bits no writable field covers never change) is watched in the C12 histories."),
+    "C17": (CO + " (method-presence probes)", "4 C17", "One probe per (field, method): getter / with_ / set_ / builder step (wherever the rules expect a builder) compile exactly when the access specifier grants them and fail with E0599 otherwise, for every field kind x {r, w, rw, none}; the run-time part (bits no writable field covers never change) is watched in the C12 histories."),
     "C18": (CO + " in a #![no_std] #![deny(missing_docs)] crate + expansion-dump scan at the verif_hooks hook", "4 C18", "Documented, pub versions of the catalog (doc comments in ///, #[doc = ..], concat! and doc(hidden) form) compile with zero diagnostics in a no_std/deny(missing_docs) crate that can only see bitbybit and arbitrary_int, and once more inside modules that shadow Result/Ok/Err/Default; every macro expansion dumped by the hook is parsed with syn and walked for unsafe constructs and for path heads outside core/arbitrary_int/Self/user types. Thorough: macro built both ways."),
     "C19": (RT + " with a #[derive(Debug)] shadow struct as the format oracle", "4 C19", "{:?} and {:#?} of debug bitfields with every readable scalar field kind, for boundary and random raws, against a same-named plain struct with #[derive(Debug)] filled from the reference register; the text must not change after new_with_raw_value(raw_value())."),
 }
